@@ -57,7 +57,7 @@ impl std::future::Future for YieldOnce {
 
 fn leaf_future(ctx: &Ctx, env: &mut Env, leaf: &Leaf) -> BoxFuture<'static, u32> {
     match leaf {
-        Leaf::Req { tag, src } => {
+        Leaf::Req { tag, src, .. } => {
             let op = VOp { o: env.stamp(), tag: *tag, val: env.src(src) };
             ctx.request_from_shell(op).boxed()
         }
@@ -86,13 +86,13 @@ fn run_script(ctx: Ctx, code: Arc<Vec<Instr>>, mut env: Env) -> BoxFuture<'stati
                     ctx.notify_shell(VOp { o: env.stamp(), tag: *tag, val }).await;
                     pc += 1;
                 }
-                Instr::Req { tag, src, dst } => {
+                Instr::Req { tag, src, dst, .. } => {
                     let val = env.src(src);
                     let op = VOp { o: env.stamp(), tag: *tag, val };
                     env.regs[*dst as usize] = ctx.request_from_shell(op).await;
                     pc += 1;
                 }
-                Instr::Open { tag, src, s } => {
+                Instr::Open { tag, src, s, .. } => {
                     let val = env.src(src);
                     let op = VOp { o: env.stamp(), tag: *tag, val };
                     env.streams[*s as usize] = Some(Arc::new(Mutex::new(ctx.stream_from_shell(op).boxed())));
@@ -164,18 +164,18 @@ fn chain_code(root: &crate::dsl::Root, stages: &[crate::dsl::Stage], sink: &crat
     for st in stages {
         body.push(Instr::Map { f: st.f.clone(), reg: 1 });
         if st.k != "map" {
-            body.push(Instr::Req { tag: st.tag, src: Src::R { r: 1 }, dst: 1 });
+            body.push(Instr::Req { tag: st.tag, src: Src::R { r: 1 }, dst: 1, l: false });
         }
     }
     if root.k == "req" {
-        let mut code = vec![Instr::Req { tag: root.tag, src: Src::C { c: root.val }, dst: 1 }];
+        let mut code = vec![Instr::Req { tag: root.tag, src: Src::C { c: root.val }, dst: 1, l: false }];
         code.extend(body);
         code.push(Instr::Emit { tag: sink.tag, src: Src::R { r: 1 } });
         code
     } else {
         let n = body.len() as u32;
         let mut code = vec![
-            Instr::Open { tag: root.tag, src: Src::C { c: root.val }, s: 1 },
+            Instr::Open { tag: root.tag, src: Src::C { c: root.val }, s: 1, l: false },
             Instr::Next { s: 1, dst: 1, els: n + 5 },
         ];
         code.extend(body);
